@@ -53,14 +53,21 @@ func (s *m3Sink) Close() {
 }
 
 // EmitMetricBatchV2 implements m3thrift.M3: user metrics are projected onto
-// their count, the reporter's own tally.internal.* metrics onto -1.
+// their value (count, timer, or the gauge truncated to an integer), the reporter's own tally.internal.* metrics onto -1.
 func (s *m3Sink) EmitMetricBatchV2(batch m3thrift.MetricBatch) error {
 	s.mu.Lock()
 	for _, m := range batch.Metrics {
 		if strings.HasPrefix(m.Name, "tally.internal") {
 			s.vals = append(s.vals, -1)
 		} else {
-			s.vals = append(s.vals, m.Value.Count)
+			switch m.Value.MetricType {
+			case m3thrift.MetricType_GAUGE:
+				s.vals = append(s.vals, int64(m.Value.Gauge))
+			case m3thrift.MetricType_TIMER:
+				s.vals = append(s.vals, m.Value.Timer)
+			default:
+				s.vals = append(s.vals, m.Value.Count)
+			}
 		}
 	}
 	s.mu.Unlock()
@@ -109,6 +116,12 @@ func (s *m3Sink) Serve() {
 			s.decode(append([]byte(nil), buf[:n]...))
 		}
 	}()
+}
+
+func (s *m3Sink) Len() int {
+	s.mu.Lock()
+	defer s.mu.Unlock()
+	return len(s.vals)
 }
 
 func (s *m3Sink) Values() []int64 {
@@ -192,6 +205,9 @@ type c14Storm struct {
 	SinkMode  int    `json:"sink_mode"`               // 0 reachable, 1 closed mid-run, 2 unreachable
 	Shared    bool   `json:"shared_bucket,omitempty"` // producers hammer one bucket handle (F14 region on the pinned tree)
 	CloseAt   int    `json:"close_at"`                // calls the first closer waits for before closing (spread over the run)
+	// Handle: all producers report unique values through ONE allocated handle of
+	// this kind ("counter", "gauge", "timer"; "" = each goroutine its own mix)
+	Handle string `json:"shared_handle,omitempty"`
 }
 
 type c14StormOut struct {
@@ -222,6 +238,9 @@ func c14StormRun(sc *c14Storm) (out c14StormOut) {
 		fatal(err)
 	}
 	shared := r.AllocateHistogram("h", nil, tally.ValueBuckets{10}).ValueBucket(0, 10)
+	sharedC := r.AllocateCounter("sc", nil)
+	sharedG := r.AllocateGauge("sg", nil)
+	sharedT := r.AllocateTimer("st", nil)
 	var mu sync.Mutex
 	var progress int64
 	guard := func(what string, f func()) {
@@ -250,6 +269,17 @@ func c14StormRun(sc *c14Storm) (out c14StormOut) {
 				atomic.AddInt64(&progress, 1)
 				if sc.Shared {
 					guard("ReportSamples", func() { shared.ReportSamples(v) })
+					continue
+				}
+				switch sc.Handle {
+				case "counter":
+					guard("ReportCount", func() { sharedC.ReportCount(v) })
+					continue
+				case "gauge":
+					guard("ReportGauge", func() { sharedG.ReportGauge(float64(v)) })
+					continue
+				case "timer":
+					guard("ReportTimer", func() { sharedT.ReportTimer(time.Duration(v)) })
 					continue
 				}
 				switch rng.Intn(6) {
@@ -352,10 +382,19 @@ func c14StormRun(sc *c14Storm) (out c14StormOut) {
 	guard("Flush after Close", func() { r.Flush() })
 	out.NilCloses, out.ErrCloses = int(nils), int(errs)
 	out.Leak = m3Leak()
-	time.Sleep(2 * time.Millisecond)
+	// let the sink's reader work off its backlog (collection effort only: what
+	// is not decoded counts as lost, which the predicate tolerates)
+	for k, quiet, n := 0, 0, sink.Len(); k < 4000 && quiet < 6 && sc.SinkMode == 0; k++ {
+		time.Sleep(time.Millisecond)
+		if n2 := sink.Len(); n2 == n {
+			quiet++
+		} else {
+			quiet, n = 0, n2
+		}
+	}
 	vals := sink.Values()
 	out.Received = len(vals)
-	if sc.Shared && sc.SinkMode == 0 {
+	if (sc.Shared || sc.Handle != "") && sc.SinkMode == 0 {
 		seen := map[int64]int{}
 		for _, v := range vals {
 			if v == -1 {
@@ -380,6 +419,9 @@ func c14StormOne(ctx *Ctx, sc *c14Storm) {
 	if sc.Shared {
 		cls = "storm-shared-bucket"
 	}
+	if sc.Handle != "" {
+		cls = "storm-shared-" + sc.Handle
+	}
 	ctx.Case(sc, "", cls, hashOf(sc))
 	switch {
 	case len(out.Panics) > 0:
@@ -390,6 +432,8 @@ func c14StormOne(ctx *Ctx, sc *c14Storm) {
 		ctx.Fail("second_close_returns_error", fmt.Sprintf("storm: %d Close calls returned nil, %d the error", out.NilCloses, out.ErrCloses), sc, out)
 	case out.Leak != "":
 		ctx.Fail("no_goroutine_left_after_close", "storm: after Close returned a goroutine of package m3 is still running:\n"+out.Leak, sc, out)
+	case out.Foreign != "" && sc.Handle != "":
+		ctx.Fail("delivered_values_were_reported", "storm on one "+sc.Handle+" handle used by all goroutines: "+out.Foreign, sc, out)
 	case out.Foreign != "":
 		ctx.FailKnown("F14", "delivered_values_were_reported", "storm on one bucket handle: "+out.Foreign, sc, out)
 	}
@@ -493,7 +537,111 @@ func c14CloseRaceOne(ctx *Ctx, rc *c14Race) {
 	}
 }
 
+// c14CloseStorm: "a second Close returns an error instead of panicking" with the
+// Close calls really concurrent: on a fresh reporter `Closers` goroutines wait
+// behind a barrier and call Close at the same moment; exactly one must get nil,
+// all others the error, none may panic. One case = `Trials` reporters.
+type c14CloseStorm struct {
+	Storm      bool   `json:"storm"`
+	CloseStorm bool   `json:"close_storm"`
+	Seed       uint64 `json:"seed"`
+	Trials     int    `json:"trials"`
+	Closers    int    `json:"closers"`
+}
+
+func c14CloseStormOne(ctx *Ctx, cs *c14CloseStorm) {
+	rng := NewRng(cs.Seed)
+	sink := newM3Sink(false) // reachable; nobody reads
+	defer sink.Close()
+	m3.VerifSetYield((func(int))(nil))
+	var mu sync.Mutex
+	var panics []string
+	hang, wrong := "", ""
+	for k := 0; k < cs.Trials && hang == "" && wrong == "" && len(panics) == 0; k++ {
+		r, err := m3.NewReporter(m3.Options{HostPorts: []string{sink.Addr()}, Service: "svc", Env: "test", MaxQueueSize: 1 + rng.Intn(16)})
+		if err != nil {
+			fatal(err)
+		}
+		if rng.Bool() {
+			r.AllocateCounter("c", nil).ReportCount(1)
+		}
+		var ready, start int32
+		var nils, errs int64
+		var wg sync.WaitGroup
+		for g := 0; g < cs.Closers; g++ {
+			wg.Add(1)
+			go func() {
+				defer wg.Done()
+				defer func() {
+					if e := recover(); e != nil {
+						mu.Lock()
+						panics = append(panics, fmt.Sprintf("trial %d: Close panicked: %v", k, e))
+						mu.Unlock()
+					}
+				}()
+				atomic.AddInt32(&ready, 1)
+				for n := 0; atomic.LoadInt32(&start) == 0; n++ {
+					if n&1023 == 1023 {
+						runtime.Gosched()
+					}
+				}
+				if r.Close() == nil {
+					atomic.AddInt64(&nils, 1)
+				} else {
+					atomic.AddInt64(&errs, 1)
+				}
+			}()
+		}
+		for atomic.LoadInt32(&ready) < int32(cs.Closers) {
+			runtime.Gosched()
+		}
+		atomic.StoreInt32(&start, 1)
+		fin := make(chan struct{})
+		go func() { wg.Wait(); close(fin) }()
+		select {
+		case <-fin:
+		case <-time.After(20 * time.Second):
+			hang = fmt.Sprintf("trial %d: concurrent Close calls still running after 20 s:\n%s", k, m3Stacks())
+		}
+		if hang == "" && len(panics) == 0 && (nils != 1 || errs != int64(cs.Closers-1)) {
+			wrong = fmt.Sprintf("trial %d: of %d concurrent Close calls %d returned nil and %d the error", k, cs.Closers, nils, errs)
+		}
+	}
+	ctx.Case(cs, "", "storm-concurrent-close", hashOf(cs))
+	switch {
+	case len(panics) > 0:
+		ctx.Fail("no_panic", fmt.Sprintf("%d goroutines calling Close at the same moment on a fresh reporter: %s", cs.Closers, strings.Join(panics, "; ")), cs, nil)
+	case hang != "":
+		ctx.Fail("no_hang", hang, cs, nil)
+	case wrong != "":
+		ctx.Fail("second_close_returns_error", wrong, cs, nil)
+	default:
+		if leak := m3Leak(); leak != "" {
+			ctx.Fail("no_goroutine_left_after_close", "concurrent Close: goroutines of package m3 left:\n"+leak, cs, nil)
+		}
+	}
+}
+
 func c14Storms(ctx *Ctx) {
+	// Close calls that really overlap (no yield point separates the steps of the
+	// test-and-set on `done`, so schedule replay cannot interleave there)
+	for k, nk := 0, ctx.N(4, 16); k < nk; k++ {
+		cs := c14CloseStorm{Storm: true, CloseStorm: true, Seed: ctx.R.U64() % 1000000, Trials: ctx.N(300, 500), Closers: []int{16, 8, 32, 16}[k%4]}
+		c14CloseStormOne(ctx, &cs)
+	}
+	// one counter / gauge / timer handle shared by all reporting goroutines:
+	// "without data races" for the value written into the handle's metric; what
+	// the race does is observable at the sink (a value delivered twice)
+	// (many more goroutines than a scope would use, small and large queues: the
+	// window is a few instructions wide and has no yield point)
+	for k, nk := 0, ctx.N(12, 36); k < nk; k++ {
+		r := ctx.R
+		p := []int{16, 32, 8, 16}[(k/3)%4]
+		sc := c14Storm{Storm: true, Seed: r.U64() % 1000000, Cap: []int{64, 4096, 16, 4096}[(k/3)%4], Binary: r.Chance(30), Producers: p,
+			Calls: 160000 / p, Handle: []string{"counter", "gauge", "timer"}[k%3]}
+		sc.CloseAt = sc.Producers * sc.Calls
+		c14StormOne(ctx, &sc)
+	}
 	for k, nk := 0, ctx.N(2, 10); k < nk; k++ {
 		rc := c14Race{Storm: true, CloseRace: true, Seed: ctx.R.U64() % 1000000, Trials: ctx.N(150, 600)}
 		c14CloseRaceOne(ctx, &rc)
